@@ -73,7 +73,7 @@ def run(tier, replay=None):
             for k in range(nsched):
                 specs.append(psrun.make_spec(q, sem[q["name"]], {"kind": "random", "seed": rng.randrange(1 << 30), "penv": rng.choice([0.3, 0.7])},
                                              name="%s#%s%d" % (q["name"], mode, k), vdr=mode, files=True, post=post[q["name"]],
-                                             rel_files=q.get("rel_files") or {}, dir_slash=(q["name"] == "po_dir" and k % 2 == 0),
+                                             rel_files=q.get("rel_files") or {}, dir_slash=(q["name"] in ("po_dir", "po_dir_twice") and k % 2 == 0),
                                              phys_paths=(k % 2 == 1),
                                              psdir_spelling=rng.choice(["", "slash", "dot", "dslash"]) if k > 0 else
                                              ("slash" if mode == "rolling" else "")))
